@@ -436,11 +436,7 @@ func (i *interpreter) makeSize(v value, what string) int64 {
 		if i.cfg != nil && i.cfg.AllocCut {
 			// deliberate cut: everything up to this allocation was decided for all sizes; beyond it
 			// the path continues with one representative size (a small one if possible)
-			small := i.ts.BVCmp("bvule", t, i.ts.BV(t.sort.W, 256))
-			if i.preferNoFork(small) {
-				i.addPC(small)
-			}
-			v := i.pick(t)
+			v := i.pickMin(t) // the smallest feasible size: the same for every solver
 			i.addPC(i.ts.Eq(t, i.ts.BV(t.sort.W, v)))
 			i.cutNotes["allocation in "+callerFn(i)+" continued with one representative size"] = true
 			return int64(v)
